@@ -92,3 +92,15 @@ package smgp
 //@     invariant @ser forall k int :: mapdom(options, k) <==> (mapdom(M, k) && ordinv(ord, k) < iter)
 //@     invariant @ser forall k int :: mapdom(options, k) ==> options[k].tag == M[k].tag && options[k].length == M[k].length && content(options[k].value) == content(M[k].value)
 //@     decreases len(packet.rem(r))
+
+// ---------------------------------------------------------------- header peeking (C02, C03)
+
+//@ func PeekHeader
+//@   props C02,C03
+//@   ensures [C03 short] len(buf) < 12 ==> err != nil
+//@   ensures [C02 fields] len(buf) >= 12 ==> err == nil && int(h.TotalLength) == dbe32(ext(content(buf), 0, 4)) && int(h.CommandID) == dbe32(ext(content(buf), 4, 8)) && int(h.SequenceID) == dbe32(ext(content(buf), 8, 12))
+
+//@ func NewHeaderFromBytes
+//@   props C02,C03
+//@   ensures [C03 short] len(d) < 12 ==> err != nil
+//@   ensures [C02 fields] len(d) >= 12 ==> err == nil && int(h.TotalLength) == dbe32(take(content(d), 4)) && int(h.CommandID) == dbe32(take(drop(content(d), 4), 4)) && int(h.SequenceID) == dbe32(take(drop(content(d), 8), 4))
